@@ -88,6 +88,14 @@ def write_set(**kw):
                     for g in n.names:
                         if g not in ('wire_names_cache', 'wire_names_cache_obj'):
                             bad.append('%s:%d global %s' % (rel, n.lineno, g))
+        shared = []
+        for cls in [c for c in ast.walk(tree) if isinstance(c, ast.ClassDef)]:
+            for st_ in cls.body:
+                if isinstance(st_, ast.Assign) and isinstance(st_.value, (ast.List, ast.Dict, ast.Set, ast.ListComp, ast.DictComp)) or \
+                   (isinstance(st_, ast.Assign) and isinstance(st_.value, ast.Call) and getattr(st_.value.func, 'id', '') in ('dict', 'list', 'set')):
+                    shared.append('%s:%d class %s keeps a mutable class-level attribute %s (state shared by every generation in the process)' % (rel, st_.lineno, cls.name, ast.unparse(st_.targets[0])))
+        out.append({'oid': '%s#no-mutable-class-level-state' % rel, 'status': 'proved' if not shared else 'refuted', 'mode': 'ast-scan', 'backend': 'ast', 'seconds': 0.0, 'function': rel,
+                    'model': None if not shared else {'sites': shared[:8]}, 'replay': None if not shared else {'reproduced': True, 'got': shared[:8], 'expected': 'per-instance state only'}})
         ok = not bad
         out.append({'oid': '%s#write-set(no store reaches the circuit)' % rel, 'status': 'proved' if ok else 'refuted', 'mode': 'ast-write-set', 'backend': 'ast', 'seconds': 0.0,
                     'evaluations': nstores, 'function': rel, 'model': None if ok else {'sites': bad[:12]},
@@ -180,6 +188,64 @@ def repeat(seed=0, n=6, **kw):
     return [{'oid': 'generation::repeat-and-interleave#bounded', 'status': 'bounded-ok', 'bounded': True, 'evaluations': evals, 'function': 'VerilogGenerator'}]
 
 
+def behavioural(seed=0, **kw):
+    """transpiled blocks: the text of one behavioural block must not depend on which other blocks were generated before it
+    in the same process; a sub-block in its own clock domain gives the same module text from any generator"""
+    import py4hw
+    from py4hw.rtl_generation import VerilogGenerator
+    from props import C02
+    work._load_contracts()
+    progs = [p for p in C02.library_programs() + C02.corpus_programs('behavioural')]
+    rnd = random.Random(seed); evals = 0
+    def gen(p):
+        obj, path, cls, m = C02.build(*p)
+        try:
+            return _q(VerilogGenerator(obj).getVerilogForHierarchy)
+        except Exception as e:
+            return 'raises %s' % type(e).__name__
+    alone = {}
+    order = list(progs); rnd.shuffle(order)
+    # reference texts: each program generated first in a fresh interpreter state is not available in-process, so the
+    # comparison is between two different interleavings of the same programs
+    first = {p: gen(p) for p in order}
+    order2 = list(reversed(order))
+    second = {p: gen(p) for p in order2}
+    for p in progs:
+        evals += 1
+        if _norm(first[p]) != _norm(second[p]):
+            return _bf('generation::behavioural-interleaving#bounded', evals, {'program': p[1], 'order_a': [x[1] for x in order], 'order_b': [x[1] for x in order2]},
+                       'the same module text whatever was transpiled before', 'texts differ')
+    # multi-clock: a sub-block with its own clock driver, requested from two generators
+    s = _q(py4hw.HWSystem)
+    d = s.wire('d', 8); q1 = s.wire('q1', 8); q2 = s.wire('q2', 8)
+    class Top(py4hw.Logic):
+        def __init__(self, parent, name):
+            super().__init__(parent, name)
+            self.addIn('d', d); self.addOut('q2', q2)
+            py4hw.Reg(self, 'r1', d, q1)
+            sub = py4hw.Logic(self, 'sub')
+            sub.clockDriver = py4hw.ClockDriver('clk25', 25E6, 0, wire=parent.wire('clk25'))
+            sub.addIn('q1', q1); sub.addOut('q2', q2)
+            py4hw.Reg(sub, 'r2', q1, q2)
+            self.sub = sub
+    top = _q(Top, s, 'top')
+    from_top = _q(VerilogGenerator(top).getVerilog, top.sub)
+    own = _q(VerilogGenerator(top.sub).getVerilog, top.sub)
+    evals += 1
+    if _norm(from_top) != _norm(own):
+        return _bf('generation::sub-block-in-other-clock-domain#bounded', evals, {'design': 'Reg in a clk25 domain inside a 50 MHz system'},
+                   'the same module text from the top generator and from its own', 'texts differ: %r vs %r' % (from_top.split(chr(10))[1:4], own.split(chr(10))[1:4]))
+    try:
+        g = VerilogGenerator(top); _q(g.getVerilogForHierarchy); from_top_after = _q(g.getVerilog, top.sub)
+        evals += 1
+        if _norm(from_top_after) != _norm(own):
+            return _bf('generation::sub-block-after-hierarchy-request#bounded', evals, {'design': 'Reg in a clk25 domain inside a 50 MHz system'},
+                       'the same module text after a whole-hierarchy request on the same generator', 'texts differ')
+    except Exception:
+        pass
+    return [{'oid': 'generation::behavioural-and-multiclock#bounded', 'status': 'bounded-ok', 'bounded': True, 'evaluations': evals, 'function': 'VerilogGenerator / transpiler'}]
+
+
 def _bf(oid, evals, case, expected, got):
     return [{'oid': oid, 'status': 'bounded-fail', 'bounded': True, 'evaluations': evals, 'model': case, 'cfg': None,
              'replay': {'reproduced': True, 'expected': expected if isinstance(expected, str) else str(expected)[:300], 'got': got if isinstance(got, str) else str(got)[:300], 'case': case}, 'function': 'VerilogGenerator'}]
@@ -187,7 +253,7 @@ def _bf(oid, evals, case, expected, got):
 
 def main(tier, seed, only=None):
     t0 = time.time()
-    items = [('props.C19:write_set', {})] + [('props.C19:repeat', dict(seed=seed * 10 + k, n=5 if tier == 'quick' else 40)) for k in range(8)]
+    items = [('props.C19:write_set', {})] + [('props.C19:behavioural', dict(seed=seed * 7 + k)) for k in range(2)] + [('props.C19:repeat', dict(seed=seed * 10 + k, n=5 if tier == 'quick' else 40)) for k in range(8)]
     items = common.filter_only(items, only)
     res = run.run_items(items)
     return run.finish(PROP, tier, res, t0, level='proof', seed=seed,
